@@ -70,5 +70,10 @@ SpecTabFrom(G, order, la) ==
        goto   |-> TLCEval([n \in DOMAIN order |-> TLCEval([A \in NT(G) |->
                       IF A \in NextSyms(G, order[n]) THEN NumOf(order, Goto0(G, order[n], A)) ELSE 0])]),
        conflictfree |-> ConflictCells(G, la, SeqRange(order), T) = {},
+       \* every conflict cell is decided by the rules of C04 (no don't-care cell)
+       decided |-> \A I \in SeqRange(order) : \A a \in T :
+                     /\ CellAct(G, la, I, a).k # "dc"
+                     /\ NCand(G, la, I, a) = 2 => \A r \in CandReds(G, la, I, a) : ~G.rules[r].precdc,
        nstates |-> Len(order) ]
+SpecOf(G) == LET S0 == States0(G) IN SpecTabFrom(G, StateOrder(G, S0), LADef(G))
 =============================================================================
